@@ -10,7 +10,6 @@ from bqskit.ir.gate import Gate
 from bqskit.ir.gates.composedgate import ComposedGate
 from bqskit.ir.location import CircuitLocation
 from bqskit.ir.location import CircuitLocationLike
-from bqskit.qis.permutation import PermutationMatrix
 from bqskit.qis.unitary.unitary import RealVector
 from bqskit.qis.unitary.unitarymatrix import UnitaryMatrix
 from bqskit.utils.math import softmax
@@ -112,12 +111,26 @@ class VariableLocationGate(ComposedGate):
         self._num_params = self.gate.num_params + len(locations)
 
         self.extension_size = self.num_qudits - self.gate.num_qudits
-        # TODO: This needs to changed for radixes
-        self.I = np.identity(2 ** self.extension_size)
+        self.I = np.identity(self.dim // self.gate.dim)
         self.perms = np.array([
-            PermutationMatrix.from_qubit_location(self.num_qudits, l)  # type: ignore  # noqa
+            self._location_permutation(l)  # type: ignore
             for l in self.locations
         ])
+
+    def _location_permutation(
+        self,
+        location: CircuitLocation,
+    ) -> npt.NDArray[np.float64]:
+        """
+        Permutation that moves `location`'s qudits to the front.
+
+        Same as `PermutationMatrix.from_qubit_location` on qubits; with
+        other radixes the qudits keep their own radix when they move.
+        """
+        n = self.num_qudits
+        order = list(location) + [q for q in range(n) if q not in location]
+        eye = np.identity(self.dim).reshape(tuple(self.radixes) + (self.dim,))
+        return eye.transpose(order + [n]).reshape(self.dim, self.dim)
 
     def get_location(self, params: RealVector) -> tuple[int, ...]:
         """Returns the gate's location."""
